@@ -3,8 +3,8 @@ from checks_path import *  # noqa
 from seq_common import run_seq, replay_seq
 
 PROPERTY = 'C11'
-GEN = ['LogicVerify']
-PROPS = ['SalsaVerif.Props.C11', 'SalsaVerif.Props.GenLogicVerify']
+GEN = ['LogicVerify', 'LogicRuntime']
+PROPS = ['SalsaVerif.Props.C11', 'SalsaVerif.Props.GenLogicVerify', 'SalsaVerif.Props.GenLogicRuntime']
 EXPLANATION = ('`c11_equals_fresh`: for every well-formed program, any initial inputs and ANY list of get / accumulated / set / '
                'synthetic-write operations the Lean engine model `CoreAcc` (Core + accumulators: push, accumulated_inputs flag, '
                'recorded edges to NEVER_CHANGE accumulators, deep_verify_edges storing the flag, discard_edges_if_never_change, the '
